@@ -4,6 +4,7 @@ import (
 	"encoding/json"
 	"fmt"
 	"os"
+	"strings"
 
 	"verifsim/world"
 )
@@ -12,12 +13,16 @@ import (
 var Checks = map[string]func(tier string, seed uint64) int{
 	"C01": C01,
 	"C02": C02,
+	"C03": C03,
 	"C04": C04,
 	"C05": C05,
 	"C06": C06,
+	"C07": C07,
 	"C08": C08,
+	"C10": C10,
 	"C12": C12,
 	"C13": C13,
+	"C17": C17,
 	"C19": C19,
 }
 
@@ -43,6 +48,16 @@ func Replay(path string) int {
 	if err != nil {
 		fmt.Fprintln(os.Stderr, err)
 		return 2
+	}
+	var cdoc ReplayDoc
+	if err := json.Unmarshal(b, &cdoc); err == nil && strings.HasPrefix(cdoc.Engine, "comp-") {
+		cl, detail := replayComp(&cdoc, path)
+		fmt.Printf("replay: engine=%s class=%q detail=%s\n", cdoc.Engine, cl, detail)
+		if cl != "" {
+			fmt.Printf("VIOLATION property=%s replay=%s\n", cdoc.Property, path)
+			return 1
+		}
+		return 0
 	}
 	var doc struct {
 		Case    *world.Case    `json:"case"`
